@@ -193,9 +193,9 @@ add("C11",
     "point, where destructors of cached values run: whatever is cached for a required specification afterwards is subscribed to it, for every accepted step "
     "order; old_order_rejected: the order before repair 90f8c8c is rejected with its reachable bad state). The IR terms of _subcache, _getcache, _lookup, _lookup1, _lookupAll, _subscriptions, _verify, the iteration mode of the "
     "loops run by changed(), the step sequence of AdapterLookupBase.changed and the step IR of the twelve registry mutators are REGENERATED from the current C / Python sources on every run (tools/cextract.py, "
-    "fails closed) and Lean decides the thirteen obligations. Runtime tie: twenty re-entrancy scenario families x two flavours x up to seven entry points x both "
+    "fails closed) and Lean decides the thirteen obligations. Runtime tie: twenty-two re-entrancy scenario families x two flavours x up to seven entry points x both "
     "twins on the real code (stray write via the dict free list, stale answer, ancestor re-based in flight, leaks, lazy required, mutating __providedBy__, "
-    "Python-level __hash__ / __bool__ of the keys, generation reads, destructors of cached values (answers, leaks), change notifications, a required interface re-based mid-walk, storage hooks mid-walk, mutators interrupted at every storage access); thorough adds a thread stress.",
+    "Python-level __hash__ / __bool__ of the keys, generation reads and generation comparisons (__eq__), destructors of cached values (answers, leaks), change notifications, a required interface re-based mid-walk, storage hooks mid-walk, mutators interrupted at every storage access); thorough adds a thread stress.",
     "stated_not_proved: C11_atomic at step granularity. Not modelled: preemption inside Python bytecode of the pure-Python twin finer than callbacks, free-threaded "
     "builds, allocator behaviour beyond the dict free list. _adapter_hook is not translated (covered by the scenarios). The translator's table of which C-API calls "
     "return borrowed / new references and which may run Python code is trusted (dictionary probes, PyObject_IsTrue and rich comparisons ARE callback points since "
@@ -209,9 +209,13 @@ add("C04",
     "positions in the resolution orders, then the extendors order), mem_rpaths (a path is applicable iff every required key is in the __sro__ of the corresponding "
     "looked-up specification and the provided key is an extendor), C04_sound, C04_complete (default iff nothing applicable), C04_best (every path before the "
     "winner has nothing under the name), rpaths_first_position (the enumeration IS lexicographic), C04_chain (first registry of `ro` with an answer wins). Every "
-    "implementation answer is also judged by an independent flat-specification oracle.",
-    "stated_not_proved: the extendors-order invariant ('more general provided interface first among comparable ones') preserved by add_extendor / remove_extendor, "
-    "and the lift through the cache (C05). None keys are registered as Interface (convNone), which C03_valid puts in every __sro__.",
+    "implementation answer is also judged by an independent flat-specification oracle. Over ALL histories of the registry operations, no guard "
+    "(ZI/Props/C04Ext.lean): C04_extInv, C04_extendors_content / _nodup / _order (the _extendors table lists exactly the provided interfaces with a count, under "
+    "every interface of their __iro__, most general first), C04_most_general(_lex/_lookup), C04_guard, C04_lookup_complete, C04_count_ge. "
+    "relookup_tabOk / relookup_tabOk_verifying (C04Relookup.lean): the table a RE-CREATED lookup object builds with init_extendors for a registry that already "
+    "holds registrations (unpickling a persistent registry) satisfies the same invariant, the registration data untouched.",
+    "The lift through the cache is C05. None keys are registered as Interface (convNone), which C03_valid puts in every __sro__. `relookup` is an operation of the "
+    "registry driver and of the correspondence, not yet an Op of the history theorems.",
     "Lean 4 proof (nested walk = lexicographic argmin over applicable paths, chain order) + differential correspondence + flat-specification oracle", "6/C04")
 add("C07",
     "Theorems on the validated registry model: subsRec_eq_concat / C07_multiset (the _subscriptions walk returns exactly the concatenation of the leaf lists — each "
